@@ -144,6 +144,56 @@ theorem collapse_eq_strip (s : String) (h : (splitWs s).length ≤ 1) : collapse
   · rw [hres, hcs, stripL_sandwich lead pre post hl hpost hpre]
     rfl
 
+/-- the tokens produced by `split()` are non-empty and free of white space -/
+theorem splitWsAux_tokens : ∀ (cs cur : List Char), (∀ c ∈ cur, isWs c = false) →
+    ∀ w ∈ splitWsAux cs cur, w ≠ [] ∧ ∀ c ∈ w, isWs c = false
+  | [], cur, hcur, w, hw => by
+    simp only [splitWsAux] at hw
+    split at hw
+    · cases hw
+    · rename_i hne
+      simp only [List.mem_singleton] at hw
+      subst hw
+      refine ⟨by simpa using hne, fun c hc => hcur c (List.mem_reverse.mp hc)⟩
+  | c :: cs, cur, hcur, w, hw => by
+    simp only [splitWsAux] at hw
+    split at hw
+    · split at hw
+      · exact splitWsAux_tokens cs [] (by simp) w hw
+      · rename_i hne
+        simp only [List.mem_cons] at hw
+        rcases hw with rfl | hw
+        · refine ⟨by simpa using hne, fun d hd => hcur d (List.mem_reverse.mp hd)⟩
+        · exact splitWsAux_tokens cs [] (by simp) w hw
+    · rename_i hc
+      refine splitWsAux_tokens cs (c :: cur) ?_ w hw
+      intro d hd
+      cases hd with
+      | head => simpa using hc
+      | tail _ hd => exact hcur d hd
+
+/-- a white-space-free word is its own single token -/
+theorem splitWsAux_word : ∀ (l cur : List Char), (∀ c ∈ l, isWs c = false) → (cur ≠ [] ∨ l ≠ []) →
+    splitWsAux l cur = [cur.reverse ++ l]
+  | [], cur, _, h => by
+    rcases h with h | h
+    · simp [splitWsAux, h]
+    · exact absurd rfl h
+  | c :: cs, cur, hl, _ => by
+    have hc : isWs c = false := hl c List.mem_cons_self
+    simp only [splitWsAux, hc, Bool.false_eq_true, if_false]
+    rw [splitWsAux_word cs (c :: cur) (fun d hd => hl d (List.mem_cons_of_mem _ hd)) (Or.inl (by simp))]
+    simp
+
+/-- every item of a list literal is a single token -/
+theorem token_single (s w : String) (hw : w ∈ splitWs s) : (splitWs w).length ≤ 1 := by
+  simp only [splitWs, List.mem_map] at hw
+  obtain ⟨l, hl, rfl⟩ := hw
+  obtain ⟨hne, hnows⟩ := splitWsAux_tokens s.toList [] (by simp) l hl
+  simp only [splitWs, String.toList_ofList, List.length_map]
+  rw [splitWsAux_word l [] hnows (Or.inr hne)]
+  simp
+
 theorem isXsdDouble_py (t : String) (h : isXsdDouble t = true) : (isPyFinite t || isPySpecial t) = true := by
   unfold isXsdDouble at h
   simp only [Bool.or_eq_true, beq_iff_eq] at h
